@@ -38,6 +38,14 @@ let () = register "mfdc" (fun () ->
   let ov = next_list next_bool in let sts = next_list next_raw in
   print_outcome (run_mfdc sk xc lb0 ne um nw gu gw ov sts))
 
+(* fd2 <upper_excl> <lb> <ne> <guessed> <gw> <g0? g0> <n> greedy* <n> over* <n> sts*  : a later solve() on the same object *)
+let () = register "fd2" (fun () ->
+  let xc = next_bool () in let lb = next_nat () in let ne = next_nat () in
+  let gu = next_bool () in let gw = next_nat () in
+  let f = next_bool () in let g = next_nat () in let g0 = if f then Some g else None in
+  let gr = next_list next_bool in let ov = next_list next_bool in let sts = next_list next_raw in
+  print_outcome (run_fd2 xc lb ne gu gw g0 gr ov sts))
+
 let () = register "mpc" (fun () ->
   let xc = next_bool () in let lb = next_nat () in let ne = next_nat () in let sts = next_list next_raw in print_outcome (run_mpc xc lb ne sts))
 let () = register "mpcc" (fun () ->
